@@ -83,7 +83,12 @@ def main(argv=None):
         pool.join()
     extra_results = []
     for ex in extra:
-        extra_results.append(ex(args.tier, seed))
+        try:
+            extra_results.append(ex(args.tier, seed))
+        except Exception as x:       # a front end that cannot translate the tree under test: harness error, never a verdict
+            import traceback
+            traceback.print_exc()
+            extra_results.append({"errors": ["%s: %s" % (type(x).__name__, x)]})
     return conclude(pid, args.tier, seed, summaries, known, time.time() - t0, extra_results)
 
 
@@ -257,4 +262,13 @@ def replay(pid, path):
 
 
 if __name__ == "__main__":
-    sys.exit(main())
+    try:
+        rc = main()
+    except SystemExit:
+        raise
+    except BaseException as x:      # an unexpected failure of the machinery is a harness error (2), never exit code 1
+        import traceback
+        traceback.print_exc()
+        print("HARNESS-ERROR: %s: %s" % (type(x).__name__, x))
+        rc = EXIT_ERROR
+    sys.exit(rc)
